@@ -393,6 +393,9 @@ func (g *vfGW) validatorFn(vc vfValCfg) ValidatorEx {
 			verdict = v
 		}
 		gated := vc.Gated
+		if from == g.n.id() {
+			gated = false // a local publication validates synchronously in the caller: never park it
+		}
 		if gated && len(vc.GateOnly) > 0 {
 			gated = false
 			for _, l := range vc.GateOnly {
